@@ -246,6 +246,42 @@ fn p_e2e_future_poll() {
     drop(obj);
     assert!(count(&keep) == 2);
 }
+static mut FUT_DROPS: u32 = 0;
+static mut OUT_DROPS: u32 = 0;
+#[kani::proof]
+#[kani::unwind(3)]
+fn p_e2e_future_owned_values() {
+    // the future and its output own heap values: the glue moves the output out exactly once (no
+    // destructor runs on the uninitialised slot, none is skipped) and never destroys the future
+    // itself, which stays owned by the object (boxed) or by the caller (by-mut)
+    use core::future::Future;
+    use core::pin::Pin;
+    use core::task::{Context, Poll};
+    struct Out { v: u32, heap: std::boxed::Box<u32> }
+    impl Drop for Out { fn drop(&mut self) { assert!(*self.heap == !self.v, "C19 a dropped output is a real output"); unsafe { OUT_DROPS += 1 } } }
+    struct Fut { v: u32, res: std::boxed::Box<u32>, done: bool }
+    impl Drop for Fut { fn drop(&mut self) { assert!(*self.res == self.v ^ 0x55, "C19 a dropped future is intact"); unsafe { FUT_DROPS += 1 } } }
+    impl Future for Fut {
+        type Output = Out;
+        fn poll(mut self: Pin<&mut Self>, _cx: &mut Context<'_>) -> Poll<Out> {
+            if !self.done { self.done = true; Poll::Pending } else { Poll::Ready(Out { v: self.v, heap: std::boxed::Box::new(!self.v) }) }
+        }
+    }
+    let (keep, waker) = setup();
+    let v: u32 = kani::any();
+    let mut cx = Context::from_waker(&waker);
+    {
+        let mut obj = crate::trait_obj!(Fut { v, res: std::boxed::Box::new(v ^ 0x55), done: false } as Future);
+        let mut p = unsafe { Pin::new_unchecked(&mut obj) };
+        assert!(p.as_mut().poll(&mut cx).is_pending());
+        match p.as_mut().poll(&mut cx) { Poll::Ready(o) => { assert!(o.v == v && *o.heap == !v, "C19 the output crosses intact"); assert!(unsafe { OUT_DROPS } == 0 && unsafe { FUT_DROPS } == 0, "C19 nothing is destroyed by completing"); drop(o); } Poll::Pending => assert!(false, "C19 Ready crosses unchanged") }
+        assert!(unsafe { OUT_DROPS } == 1, "C19 the output is owned by the caller exactly once");
+        drop(obj);
+        assert!(unsafe { FUT_DROPS } == 1, "C19 the boxed future is destroyed exactly once, with its object");
+    }
+    assert!(count(&keep) == 2, "C19 no clone of the original is kept");
+    kani::cover!(true, "end");
+}
 //@ prefix=b_tree kind=property clause=bounded histories over a tree of three owned wakers (two sharing one record, one separate), each ended by a symbolic choice of wake / wake_by_ref+drop / drop, in both orders: wakes counted exactly, every clone released exactly once, no memory error
 fn end(w: Waker, how: u8, expected: &mut u32) {
     match how {
